@@ -251,3 +251,25 @@ Definition traced_ok (row : Z * bool * list Z * bool * list Z) : bool :=
   let '(b1, c1) := is_operator_supported (fun _ => true) op in
   let '(b2, c2) := is_operator_semantic_valid (fun _ => true) op in
   Bool.eqb b1 rsup && list_eqb c1 lsup && Bool.eqb b2 rsem && list_eqb c2 lsem.
+
+(* ------------------------------------------------------------------------------------------------------------ *)
+(* value lists printed by the report (data types, operator types) against the sets the predicates read            *)
+Fixpoint join_comma (l : list (list Z)) : list Z :=
+  match l with
+  | [] => []
+  | x :: r => match r with [] => x | _ => x ++ [44; 32] ++ join_comma r end
+  end.
+(* adjacent duplicates removed (the printed list is sorted) *)
+Fixpoint dedup_adjacent (l : list (list Z)) : list (list Z) :=
+  match l with
+  | [] => []
+  | x :: r => match r with
+              | y :: _ => if list_eqb x y then dedup_adjacent r else x :: dedup_adjacent r
+              | [] => [x]
+              end
+  end.
+(* a row is right when the sentence of the constraint is the prefix followed by the printed values, and the printed values
+   are exactly the enforced ones *)
+Definition value_list_ok (row : Z * list Z * list (list Z) * list (list Z)) : bool :=
+  let '(c, prefix, printed, enforced) := row in
+  list_eqb (doc_of c) (prefix ++ join_comma printed) && list_list_eqb (dedup_adjacent printed) enforced.
